@@ -668,77 +668,93 @@ pub fn drive<C: Check>(o: DriveOpts) -> i32 {
         .ok()
         .and_then(|s| s.parse().ok())
         .unwrap_or(3);
+    // candidates per class in run order: a violation may depend on state an earlier run left behind in
+    // the worker process (caches, poisoned locks); such an occurrence does not replay in a fresh process,
+    // so the first occurrence that does is reported
+    let mut by_class: Vec<(String, Vec<&FoundViolation>)> = vec![];
     for v in &unknown {
         let cls = format!("{}|{:?}", v.class, v.key);
-        if seen_classes.contains(&cls) {
-            continue;
+        seen_classes.insert(cls.clone());
+        match by_class.iter_mut().find(|(c, _)| *c == cls) {
+            Some((_, l)) => l.push(v),
+            None => by_class.push((cls, vec![v])),
         }
-        seen_classes.insert(cls);
+    }
+    for (_cls, cands) in by_class.iter() {
         if reported >= max_reports {
-            continue;
+            break;
         }
         reported += 1;
-        let case = gen_case::<C>(o.seed, o.tier, v.idx);
-        let rf = ReplayFile {
-            property: C::ID.to_string(),
-            class: v.class.clone(),
-            detail: v.detail.clone(),
-            seed: o.seed,
-            idx: v.idx,
-            tier: o.tier.name().to_string(),
-            shrunk: false,
-            shrink_attempts: 0,
-            finding_key: v.key.clone(),
-            case: serde_json::to_value(&case).unwrap(),
-        };
-        let h = crate::rng::fnv1a(format!("{}{}{}{}", C::ID, v.class, o.seed, v.idx).as_bytes());
-        let path = PathBuf::from(format!(
-            "{}/replays/{}-{:08x}.json",
-            VERIF_DIR,
-            C::ID,
-            h as u32
-        ));
-        let _ = std::fs::create_dir_all(path.parent().unwrap());
-        std::fs::write(&path, serde_json::to_string_pretty(&rf).unwrap()).expect("write replay");
-        // minimise in a child (time-boxed), then confirm in a fresh process
-        if !v.class.starts_with("abort:") && std::env::var("VERIF_NO_SHRINK").is_err() {
-            let _ = Command::new(&exe)
-                .arg("shrink")
-                .arg(&path)
-                .stdin(Stdio::null())
-                .status();
+        let mut confirmed: Option<(&FoundViolation, PathBuf)> = None;
+        let mut not_replaying = 0usize;
+        let mut first_failure: Option<String> = None;
+        for v in cands.iter().take(12) {
+            let case = gen_case::<C>(o.seed, o.tier, v.idx);
+            let rf = ReplayFile {
+                property: C::ID.to_string(),
+                class: v.class.clone(),
+                detail: v.detail.clone(),
+                seed: o.seed,
+                idx: v.idx,
+                tier: o.tier.name().to_string(),
+                shrunk: false,
+                shrink_attempts: 0,
+                finding_key: v.key.clone(),
+                case: serde_json::to_value(&case).unwrap(),
+            };
+            let h = crate::rng::fnv1a(format!("{}{}{}{}", C::ID, v.class, o.seed, v.idx).as_bytes());
+            let path = PathBuf::from(format!("{}/replays/{}-{:08x}.json", VERIF_DIR, C::ID, h as u32));
+            let _ = std::fs::create_dir_all(path.parent().unwrap());
+            std::fs::write(&path, serde_json::to_string_pretty(&rf).unwrap()).expect("write replay");
+            let replays = |p: &Path| -> (bool, String) {
+                let conf = Command::new(&exe).arg("replay").arg(p).stdin(Stdio::null()).output().expect("replay child");
+                let so = String::from_utf8_lossy(&conf.stdout).to_string();
+                (so.contains(&format!("VIOLATION property={}", C::ID)), so)
+            };
+            // does the occurrence stand on its own (fresh process)?
+            let (ok, so) = replays(&path);
+            if !ok {
+                not_replaying += 1;
+                if first_failure.is_none() && !v.after_panic {
+                    first_failure = Some(format!("violation {} at idx {} did not replay from {} (output: {})", v.class, v.idx, path.display(), so.trim()));
+                }
+                let _ = std::fs::remove_file(&path);
+                continue;
+            }
+            // minimise in a child (time-boxed), then confirm in a fresh process
+            let unshrunk = std::fs::read(&path).unwrap_or_default();
+            if !v.class.starts_with("abort:") && std::env::var("VERIF_NO_SHRINK").is_err() {
+                let _ = Command::new(&exe).arg("shrink").arg(&path).stdin(Stdio::null()).status();
+            }
+            let (mut ok2, mut so2) = replays(&path);
+            if !ok2 {
+                // the minimiser runs many variants in one process: state left behind by one variant can make
+                // a later one look violating. Fall back to the occurrence as found.
+                std::fs::write(&path, &unshrunk).expect("restore replay");
+                let r = replays(&path);
+                ok2 = r.0;
+                so2 = r.1;
+            }
+            if ok2 {
+                confirmed = Some((v, path));
+                break;
+            }
+            if first_failure.is_none() {
+                first_failure = Some(format!("violation {} at idx {} did not replay after minimisation from {} (output: {})", v.class, v.idx, path.display(), so2.trim()));
+            }
         }
-        let conf = Command::new(&exe)
-            .arg("replay")
-            .arg(&path)
-            .stdin(Stdio::null())
-            .output()
-            .expect("replay child");
-        let so = String::from_utf8_lossy(&conf.stdout).to_string();
-        if so.contains(&format!("VIOLATION property={}", C::ID)) {
-            println!(
-                "VIOLATION property={} replay={} class={} idx={} seed={}",
-                C::ID,
-                path.display(),
-                v.class,
-                v.idx,
-                o.seed
-            );
-            exit = 1;
-        } else if v.after_panic {
-            println!(
-                "note: {} at idx {} followed a panic in the same worker process and does not replay in a fresh one (contaminated process state, not counted)",
-                v.class, v.idx
-            );
-            let _ = std::fs::remove_file(&path);
-        } else {
-            harness_errors.push(format!(
-                "violation {} at idx {} did not replay from {} (output: {})",
-                v.class,
-                v.idx,
-                path.display(),
-                so.trim()
-            ));
+        match confirmed {
+            Some((v, path)) => {
+                println!("VIOLATION property={} replay={} class={} idx={} seed={}", C::ID, path.display(), v.class, v.idx, o.seed);
+                if not_replaying > 0 {
+                    println!("note: {} earlier occurrence(s) of {} depended on state left behind by earlier runs of the same worker process and did not replay on their own", not_replaying, v.class);
+                }
+                exit = 1;
+            }
+            None => match first_failure {
+                Some(f) => harness_errors.push(f),
+                None => println!("note: {} occurrence(s) of {} followed a panic in the same worker process and do not replay in a fresh one (contaminated process state, not counted)", not_replaying, cands[0].class),
+            },
         }
     }
     if unknown.len() > reported {
